@@ -187,6 +187,24 @@ struct Run {
             else if (o == "xaec") ret = ext->add_address_event_count(vr::aec_in(op["r"]), st) ? 1 : 0;
             else if (o == "xmm") ret = ext->add_malformed_message(vr::mm_in(op["r"]), st) ? 1 : 0;
             else if (o == "xwb") ret = exp->write_block(*ext);
+            else if (o == "xreload") {
+                // the kept block goes through a file: written by a scratch exporter with the same parameter sets, read back by
+                // the reader, and the block the reader returned is the one the application goes on filling and writing
+                if (ext->get_item_count() > 0) {
+                    std::string path = fresh() + ".reload";
+                    {
+                        FilePreamble fp2(mybps);
+                        CdnsExporter tmp(fp2, path, CborOutputCompression::NO_COMPRESSION);
+                        tmp.write_block(*ext);
+                    }
+                    std::ifstream in(path, std::ios::binary);
+                    CdnsReader rd(in);
+                    bool eof = false;
+                    ext.reset(new CdnsBlockRead(rd.read_block(eof)));
+                    unlink(path.c_str());
+                }
+                ret = 0;
+            }
             else if (o == "xmove") {
                 // the kept block changes its place (the application holds its blocks by value): the block that takes
                 // over is the same block - content, stated parameter set and the parameters it is filled under
